@@ -29,7 +29,8 @@ RULE = ("case = (serde configuration, value description). Values: a recursive Hy
         "(str(x).encode('ascii')); payload is bytes or ASCII str; 0 <= flags < 2^16; compressed flag set iff the "
         "stored form is the codec's output for the inner payload and decompresses to it; stored form never longer "
         "than the inner payload; min_compress_len=0 never compresses; a PickleSerde(p) pickle uses no opcode newer than protocol p. Non-trivial: the value is not plain bytes/str, "
-        "or its inner payload is longer than the threshold. Graph-shaped values (a list / dict that contains itself, a child pointing back at its parent, one object reached twice) are part of the grid and compared as graphs. Sequences: several values through ONE serializer object (also the module-level pickle_serde / compressed_serde singletons), first one after the other and then all serialized before any is deserialized; the sequences contain 'twins' - values of different types whose serialized payload is byte-identical (a str and its bytes, an int and its digits, an object and its own pickle kept as bytes) - in every order, at sizes around every threshold; and values that cannot be pickled (a lambda after 0 ... 300 000 bytes of picklable members), whose serialization fails part-way, followed by ordinary values through the same object. Written by one, read by another: an item serialized through CompressedSerde(threshold w) is deserialized through a second object with the same codec and inner serializer and threshold r in {0, 1, 10, 400, 10**9, inf, 0.0, False} (also the module-level objects): the value read must equal the value written. CompressedSerde may wrap an application serializer that stores nothing verbatim; a value may serialize another value through the same serializer object while it is being pickled; every stored item is read back twice and the first result changed - the second reading is another object and still equal to what was stored. A counter stored through a serializer and rewritten in place by the server (padded with blanks when it got shorter) reads back as the number. A class that cannot be found while an item is read (the result is None then) and is found again later: the item then reads as stored.")
+        "or its inner payload is longer than the threshold. Graph-shaped values (a list / dict that contains itself, a child pointing back at its parent, one object reached twice) are part of the grid and compared as graphs. Sequences: several values through ONE serializer object (also the module-level pickle_serde / compressed_serde singletons), first one after the other and then all serialized before any is deserialized; the sequences contain 'twins' - values of different types whose serialized payload is byte-identical (a str and its bytes, an int and its digits, an object and its own pickle kept as bytes) - in every order, at sizes around every threshold; and values that cannot be pickled (a lambda after 0 ... 300 000 bytes of picklable members), whose serialization fails part-way, followed by ordinary values through the same object. Written by one, read by another: an item serialized through CompressedSerde(threshold w) is deserialized through a second object with the same codec and inner serializer and threshold r in {0, 1, 10, 400, 10**9, inf, 0.0, False} (also the module-level objects): the value read must equal the value written. CompressedSerde may wrap an application serializer that stores nothing verbatim; a value may serialize another value through the same serializer object while it is being pickled; every stored item is read back twice and the first result changed - the second reading is another object and still equal to what was stored. A counter stored through a serializer and rewritten in place by the server (padded with blanks when it got shorter) reads back as the number. A class that cannot be found while an item is read (the result is None then) and is found again later: the item then reads as stored."
+        + ' Values of 17 MiB (thorough also 33 MiB) through the compressing serializers in default and explicit configurations.')
 MANIFEST = {
     "category": "exploration",
     "technique": "Hypothesis recursive value generation + enumerated grid of (leaf kind x serde configuration x threshold-straddling sizes); round-trip oracle through the client's own wire encoding, plus flag/size invariants for the compressed serializer",
